@@ -64,6 +64,7 @@ type RunResult struct {
 	Plan *plan.Plan
 	Incs []*IncResult
 	Dir  string
+	Sub  []*RunResult // world-set plans: one result per world
 }
 
 var (
@@ -124,7 +125,10 @@ func RunPlan(p *plan.Plan, between Between) (*RunResult, error) {
 }
 
 func (r *RunResult) Cleanup() {
-	if !keepDirs {
+	for _, s := range r.Sub {
+		s.Cleanup()
+	}
+	if !keepDirs && r.Dir != "" {
 		_ = os.RemoveAll(r.Dir)
 	}
 }
